@@ -20,7 +20,7 @@ ANCHORS = [
 ]
 OPS = ["cumsum", "np.cumsum", "add.acc", "subtract.acc", "xor.acc", "sort", "unique", "unique_counts", "diff"]
 FLOOR_TAGS = ["op:" + o for o in OPS] + ["kind:b", "kind:i", "kind:u", "kind:f", "norows", "allempty", "e-first", "e-last", "e-mid", "e-consec", "e-none",
-                                         "recv:fresh", "recv:lazyrows", "recv:lazycols+2", "diff-n>len", "v:extreme", "v:dups", "op-write-op"]
+                                         "recv:fresh", "recv:lazyrows", "recv:lazycols+2", "diff-n>len", "v:extreme", "v:dups", "op-write-op", "ntype:uint8", "ntype:int64", "many-empty-rows"]
 FLOOR_MONITORS = ["c07:compare"]
 N_RANDOM = {"quick": 36000, "thorough": 400000}
 
@@ -54,7 +54,7 @@ def run_once(case, rewrite):
     recv = case.get("recv", "fresh")
     ra, parent = c02.build_receiver(recv, flat, lens)
     if rewrite is not None:
-        first = attempt(apply_op, ra, op, nn)        # first application (judged by the first pass); its result is dropped
+        first = attempt(apply_op, ra, op, nn, case.get("ntype"))        # first application (judged by the first pass); its result is dropped
         pos = rewrite["pos"] % tot
         newv = np.array([rewrite["val"]]).astype(dt)[0]
         i = int(np.searchsorted(np.cumsum(lens), pos, side="right"))
@@ -76,6 +76,8 @@ def run_once(case, rewrite):
     tags = ["op:" + op, "kind:" + dt.kind, "v:" + case["vclass"], "recv:" + recv] + gen.empty_placement(lens)
     if op == "diff" and lens and nn > max(lens):
         tags.append("diff-n>len")
+    if len(lens) > 126 and max((sum(1 for _ in g) for k_, g in __import__("itertools").groupby(lens) if k_ == 0), default=0) >= 126:
+        tags.append("many-empty-rows")
     if op in ("cumsum", "np.cumsum"):
         if dt.kind not in "iu":
             return undefined("cumsum on %s is rejected by design" % dt, tags)
@@ -96,7 +98,8 @@ def run_once(case, rewrite):
         a = attempt(lambda: np.unique(ra, axis=-1, return_counts=True))
     elif op == "diff":
         o = attempt(lambda: [np.diff(r, n=nn) for r in rows] + [np.diff(flat[:0], n=nn)][:0])
-        a = attempt(lambda: np.diff(ra, n=nn, axis=-1))
+        a = attempt(lambda: np.diff(ra, n=as_n(nn, case.get("ntype")), axis=-1))
+        tags.append("ntype:" + str(case.get("ntype") or "int"))
     else:
         raise ValueError(op)
     if not o.ok:
@@ -136,7 +139,7 @@ def run_once(case, rewrite):
     return held(tags, nontrivial)
 
 
-def apply_op(ra, op, nn):
+def apply_op(ra, op, nn, ntype=None):
     if op == "cumsum":
         return ra.cumsum(axis=-1)
     if op == "np.cumsum":
@@ -149,7 +152,18 @@ def apply_op(ra, op, nn):
         return np.unique(ra, axis=-1)
     if op == "unique_counts":
         return np.unique(ra, axis=-1, return_counts=True)
-    return np.diff(ra, n=nn, axis=-1)
+    return np.diff(ra, n=as_n(nn, ntype), axis=-1)
+
+
+def as_n(nn, ntype):
+    """the order of np.diff as a python int, a numpy integer (signed / unsigned) or a 0-d array"""
+    if ntype in (None, "int"):
+        return nn
+    if ntype == "0d":
+        return np.array(nn, dtype=np.uint8 if nn < 256 else np.uint16)
+    if not (np.iinfo(ntype).min <= nn <= np.iinfo(ntype).max):
+        return nn
+    return np.dtype(ntype).type(nn)
 
 
 # ----------------------------------------------------------------------------- workloads
@@ -174,7 +188,10 @@ def gen_case(rng, lens, dtype, vclass, op=None, recv="fresh"):
     rewrite = None
     if rng.random() < 0.3 and sum(lens) and vclass in ("small", "dups"):
         rewrite = {"how": rng.choice(["cell", "cell", "row", "fill"]), "pos": rng.randrange(10 ** 6), "val": rng.choice([0, 1, 3, 7])}
-    return mk_case(lens, dtype, _vals(rng, dtype, sum(lens), vclass, op), op, nn, vclass, recv, rewrite)
+    c = mk_case(lens, dtype, _vals(rng, dtype, sum(lens), vclass, op), op, nn, vclass, recv, rewrite)
+    if op == "diff":
+        c["ntype"] = rng.choice(["int", "int", "int64", "uint8", "uint64", "int8", "0d"])
+    return c
 
 
 def directed():
@@ -194,6 +211,15 @@ def directed():
                 c = gen_case(rng, [3, 0, 4, 2], dtype, "dups", op)
                 c["rewrite"] = {"how": how, "pos": 5, "val": 1}
                 yield c
+    for run in (126, 127, 128, 255, 256, 300):
+        for op in ("sort", "unique_counts", "cumsum", "diff", "add.acc"):
+            yield gen_case(rng, [2] + [0] * run + [3, 1, 2], "int64", "dups", op)
+            yield gen_case(rng, [0] * run + [3, 2], "int16", "dups", op)
+    for ntype in ("uint8", "uint64", "int8", "0d", "int64"):
+        for nn in (1, 2, 3):
+            c = mk_case([3, 0, 4, 2, 1], "int64", [5, 1, 8, 2, 2, 7, 9, 4, 4, 6], "diff", nn, "small")
+            c["ntype"] = ntype
+            yield c
     L = [3, 0, 4, 2, 0]
     for dtype in gen.DT_INT:
         for op in ["cumsum", "add.acc", "subtract.acc", "xor.acc", "sort", "unique_counts", "diff"]:
